@@ -238,7 +238,7 @@ fn aig_tail(a: &Aig, rng: &mut StdRng, out: &mut Vec<u8>) {
         for idx in (0..n.min(3)).chain(if n > 3 { Some(n - 1) } else { None }) {
             if rng.gen_range(0..3) == 0 {
                 out.extend_from_slice(format!("{}{} ", k, idx).as_bytes());
-                out.extend_from_slice([&b"x"[..], b"name with space", b"", "\u{3bb}".as_bytes(), b"c"][rng.gen_range(0..5)]);
+                out.extend_from_slice([&b"x"[..], b"name with space", b"", "\u{3bb}".as_bytes(), b"c", b"ends in cr\r", b"\r", b"a\rb", b" lead", b"trail ", b"tab\tin"][rng.gen_range(0..11)]);
                 out.push(b'\n');
             }
         }
